@@ -42,6 +42,10 @@ CONSTANTS NameExt,      \* "" | ".h5" | ".dmp" : the extension the logical name 
           CtorEngine,   \* the engine the Harvester object was constructed with (may differ from Engine: the calls
                         \* add_ds / load_full_ds / save_full_ds then carry engine=Engine explicitly)
           CtorEngSites, \* sites using the constructor's engine instead of the one given with the call
+          Decoy,        \* "none" | "dir" | "file" : an unrelated entry called EXACTLY like the (extension-less) logical
+                        \* name sits in the directory from the start - a folder, or an older dataset file (holding
+                        \* piece 99, readable with Engine).  The rule never names it, so nothing may read or touch it.
+          BareIfExistsSites, \* sites using the name as given WHEN an entry of that name exists (deviation)
           MaxLen,       \* length of the histories
           Policies,     \* subset of {"none", "true", "false"} : overwrite=None/True/False
           OpsOn,        \* subset of {"Save","Load","LoadNew","SaveMerge","HarvSame","HarvFresh","Delete"}
@@ -82,7 +86,8 @@ SibFileOf(e) == RuleFile(Root, SibExt, e)
 (* what the implementation computes *)
 CodeFile(root, x, e) == IF NameRule = "splitext" /\ x # "" /\ ~KnownExt(x) THEN root \o Ext(e) ELSE RuleFile(root, x, e)
 EngAt(site) == IF site \in DefEngSites THEN "h5netcdf" ELSE IF site \in CtorEngSites THEN CtorEngine ELSE Engine
-FileAt(site) == IF site \in RawSites THEN Name ELSE CodeFile(Root, NameExt, EngAt(site))
+FileAt(site) == IF site \in RawSites \/ (site \in BareIfExistsSites /\ Name \in dir) THEN Name
+                ELSE CodeFile(Root, NameExt, EngAt(site))
 SibFileAt(site) == IF site \in RawSites THEN SibName ELSE CodeFile(Root, SibExt, EngAt(site))
 
 AllFiles == { n \o x : n \in {"data", "data.h5", "data.dmp", "data_T0", "data_T0.5", "data_T0.25"}, x \in {"", ".h5", ".dmp"} }
@@ -103,10 +108,13 @@ P == Len(hist) + 1          \* the piece contributed by this step
 WantOld == IF live THEN want ELSE {}
 
 -----------------------------------------------------------------------------
+DecoyPiece == 99
+DecoyFiles == IF Decoy = "none" THEN {} ELSE {Name}
 Init ==
-    /\ dir = {}
-    /\ content = [f \in AllFiles |-> {}]
-    /\ fmt = [f \in AllFiles |-> "none"]
+    /\ Decoy # "none" => ~KnownExt(NameExt)          \* the decoy is never a file the rule names
+    /\ dir = DecoyFiles
+    /\ content = [f \in AllFiles |-> IF f \in DecoyFiles /\ Decoy = "file" THEN {DecoyPiece} ELSE {}]
+    /\ fmt = [f \in AllFiles |-> IF f \in DecoyFiles THEN (IF Decoy = "file" THEN Engine ELSE "dir") ELSE "none"]
     /\ mem = <<>> /\ sess = FALSE
     /\ live = FALSE /\ want = {}
     /\ last = Outcome("none", "ok", {}, {}, {})
@@ -129,6 +137,9 @@ Save ==
     /\ UNCHANGED <<mem, sess, rt>>
     /\ UNCHANGED sibv
 
+(* the chunks argument of a load alternates with the step number (lazy loading is value-equal) *)
+ChunksAt(n) == IF n % 2 = 0 THEN "int" ELSE "none"
+
 (* load_ds(name, engine) *)
 Load ==
     /\ "Load" \in OpsOn
@@ -136,6 +147,7 @@ Load ==
     /\ LET r == Read(FileAt("load"), Engine)
        IN  /\ last' = Outcome("Load", r.st, r.val, {}, {})
            /\ hist' = Append(hist, [op |-> "Load", pol |-> "none", p |-> 0, st |-> r.st,
+                                    ch |-> IF Decoy = "none" THEN "none" ELSE ChunksAt(P),
                                     dir |-> dir, disk |-> [f \in dir |-> content[f]], val |-> r.val])
     /\ UNCHANGED <<dir, content, fmt, mem, sess, live, want, rt>>
     /\ UNCHANGED sibv
@@ -144,7 +156,6 @@ Load ==
    names exists, a blank dataset otherwise; never creates a file.  Lazy loading (chunks) is
    value-equal to loading into memory, so the chunks argument does not change the outcome; it
    alternates with the step number so that both spellings occur in the emitted histories. *)
-ChunksAt(n) == IF n % 2 = 0 THEN "int" ELSE "none"
 LoadNew ==
     /\ "LoadNew" \in OpsOn
     /\ Len(hist) < MaxLen
@@ -270,7 +281,14 @@ Spec == Init /\ [][Next]_vars
 TypeOK == dir \subseteq AllFiles /\ Len(hist) <= MaxLen
 
 (* the directory holds exactly the one file the rule names, or nothing *)
-DirExact == dir = (IF live THEN {FileOf(Engine)} ELSE {}) \cup (IF sibLive THEN {SibFileOf(Engine)} ELSE {})
+DirExact == dir = (IF live THEN {FileOf(Engine)} ELSE {}) \cup (IF sibLive THEN {SibFileOf(Engine)} ELSE {}) \cup DecoyFiles
+
+(* an unrelated entry that merely has the bare name is never read, rewritten or removed *)
+DecoyUntouched == \A f \in DecoyFiles :
+    /\ f \in dir
+    /\ content[f] = (IF Decoy = "file" THEN {DecoyPiece} ELSE {})
+    /\ fmt[f] = (IF Decoy = "file" THEN Engine ELSE "dir")
+DecoyNeverLoaded == DecoyPiece \notin last.val
 
 (* ... and that file holds the last saved / merged content, in the caller's engine *)
 DiskIsWant == /\ live => (content[FileOf(Engine)] = want /\ fmt[FileOf(Engine)] = Engine)
@@ -300,7 +318,7 @@ MemIsDisk == (sess /\ last.op \in {"HarvFresh", "HarvSame"} /\ last.st = "ok") =
 
 EmitCase ==
     Len(hist) = MaxLen =>
-        PrintT(<<"CASE", ToJson([ext |-> NameExt, engine |-> Engine, ctor |-> CtorEngine, file |-> FileOf(Engine), name |-> Name, sib |-> SibName,
+        PrintT(<<"CASE", ToJson([ext |-> NameExt, engine |-> Engine, ctor |-> CtorEngine, decoy |-> Decoy, file |-> FileOf(Engine), name |-> Name, sib |-> SibName,
                                  hist |-> hist])>>)
 
 -----------------------------------------------------------------------------
